@@ -31,6 +31,15 @@ fn frames_for(kind: &str, victim: &str, seen: Option<(u64, u64)>) -> Option<Vec<
         "stream_in_handshake" => stream(peer_bidi, 0, &[1], false),
         // CONNECTION_CLOSE of type 0x1d (application close) is only allowed in 0-RTT / 1-RTT packets (RFC 9000 12.4/12.5)
         "app_close_in_handshake" => vec![0x1d, 0x07, 0x00],
+        // an ACK frame acknowledging exactly the first packet number the victim has NOT sent yet (RFC 9000 13.1: an
+        // endpoint SHOULD treat an acknowledgement of a packet it did not send as PROTOCOL_VIOLATION)
+        "ack_next_unsent" => {
+            let next = crate::common::LAST_TX_PN.with(|c| c.get()[crate::common::side(victim)]).map_or(0, |x| x + 1);
+            let mut v = vec![0x02u8];
+            v.extend(vi(next).encode_to_vec());
+            v.extend([0u8, 0, 0]); // ack delay 0, no further ranges, first range 0: exactly that one number
+            v
+        }
         _ => return None,
     })
 }
